@@ -25,8 +25,10 @@ from symv.carriers import dejit, patched, rebuild, symarr, symnp
 from symv.case import Case
 from symv.claims import violated
 from symv.proxies import SReal, lift, model_env, to_real
+from symv.symarray import cells
 
 from . import dailyref as R
+from . import dailyframe as F2
 from .dailyref import FIELDS, TC, Z
 
 EXPLANATION = ("C12: nondeterministic optimiser outcome inside its box -> scored curve vs kept/evaluated curve vs "
@@ -104,7 +106,7 @@ def cases(tier, seed):
     for k in KINDS:
         for sn in split_names(k):
             out.append(f"{k}/curve/{sn}")
-    out += ["hdd_tidd_cdd_smooth/bounds/x", "hdd_tidd_cdd/bounds/x", "tidd/uncertainty/x", "tidd/limits/5", "tidd/limits/6"]
+    out += ["hdd_tidd_cdd_smooth/bounds/x", "hdd_tidd_cdd/bounds/x", "tidd/uncertainty/x", "tidd/limits/5", "tidd/limits/6", "refit/segments/x"]
     return out
 
 
@@ -402,8 +404,8 @@ def replay_unc(inp):
     """real _prediction_uncertainty (real np.std, unc_factor, t quantile); only the lag-1 autocorrelation of the
     residuals is injected from the witness"""
     env = inp["env"]
-    N, k, rho = int(env["N"]), int(env["k"]), float(env["rho"])
-    resid = np.resize(np.array([1.0, -1.0, 0.5, -0.5]), N) * float(env.get("s", 1.0) or 1.0)
+    N, k, rho = int(env["N"]), int(env["k"]), (float("nan") if inp.get("rho_nan") else float(env["rho"]))
+    resid = np.resize(np.array([1.0, -1.0, 0.5, -0.5]), N) * (0.0 if inp.get("rho_nan") else float(env.get("s", 1.0) or 1.0))
     o = _unc_object(N, k, resid)
     with patched(orr, acf=lambda *a, **kw: np.array([1.0, rho])):
         o._prediction_uncertainty()
@@ -445,10 +447,17 @@ def run_unc(case):
         def std(self, x, *a, **kw):
             return SReal(z3.Real("s"))
 
-    with patched(orr, acf=lambda *a, **kw: [1.0, SReal(z3.Real("rho"))], unc_factor=unc, np=_NP()):
+    def _acf(*a, **kw):
+        # lag-1 autocorrelation of the residuals: any value in (-1, 1), or undefined (NaN) when they have no spread
+        if F2.choose("rho_state", ["val", "nan"]) == "nan":
+            E.cur().path_notes["rho"] = "nan"
+            return [1.0, np.float64("nan")]
+        return [1.0, SReal(z3.Real("rho"))]
+
+    with patched(orr, acf=_acf, unc_factor=unc, np=_NP()):
         paths = case.explore(run)
-    rp = ("unc", lambda mdl: dict(env=model_env(mdl, case.inputs)))
     for p in paths:
+        rp = ("unc", (lambda nanrho: lambda mdl: dict(rho_nan=nanrho, env=model_env(mdl, case.inputs)))(p.notes.get("rho") == "nan"))
         if p.outcome != "ret":
             case.rep["harness_errors"].append(f"_prediction_uncertainty raised {p.value!r}")
             continue
@@ -459,6 +468,7 @@ def run_unc(case):
         if isinstance(f_unc, SReal):
             case.prove(p, to_real(lift(f_unc)) >= 0, "the stored uncertainty factor is non-negative", replay=rp)
         case.regime("effective degrees of freedom floored at 1", not isinstance(dof, (SReal, SInt)))
+        case.regime("residual autocorrelation undefined", p.notes.get("rho") == "nan")
     case.sample(dict(function="OptimizedResult._prediction_uncertainty", paths=len(paths)))
 
 
@@ -534,8 +544,107 @@ def run_limits(case, n):
     case.sample(dict(function="OptimizedResult.__init__ / get_T_bnds", days=n, paths=len(paths)))
 
 
+# ----------------------------------------------------------------- a second fit of one model object uses the second baseline's days
+
+SEG_N = 4
+
+
+def _segments_run(layout, temps, usage):
+    """the real DailyModel._fit (data preparation, component list, both fitting passes' segment selection) twice on ONE model
+    object; the optimiser entry points are recorders.  temps/usage: two lists (first and second baseline).
+    Returns what each pass of the SECOND fit received, per component: list of (index, temperature cells)."""
+    import types as _t
+    import pandas as pd
+    import opendsm.eemeter.models.daily.model as dm
+    seen = []
+
+    def rec(kind):
+        def f(meter_segment, *a, **k):
+            seen.append((kind, list(meter_segment.index), list(cells(meter_segment["temperature"])) if hasattr(meter_segment["temperature"], "array") else list(meter_segment["temperature"])))
+            T = meter_segment["temperature"]
+            return _t.SimpleNamespace(wSSE=0.0, N=len(meter_segment), resid=np.zeros(len(meter_segment)), obs=np.ones(len(meter_segment)), model_name="tidd",
+                                      T_min=0.0, T_max=1.0, T_min_seg=0.0, T_max_seg=1.0, f_unc=0.0, named_coeffs=pm.ModelCoefficients(model_type="tidd", intercept=1.0), settings=None)
+        return f
+    m = dm.DailyModel(model="legacy") if layout == "legacy" else dm.DailyModel()
+    m._combinations = lambda: ["fw-su_sh_wi", "wd-su_sh_wi__we-su_sh_wi"]
+    m._best_combination = lambda print_out=False: "wd-su_sh_wi__we-su_sh_wi"
+    m._get_error_metrics = lambda combo: (0.1, 0.1, 0.1, 0.1, 0.1)
+    m._create_params_from_fit_model = lambda: None
+    starts = ("2021-01-04", "2021-07-05")
+    with patched(dm, fit_initial_models_from_full_model=rec("initial"), fit_final_model=rec("final")):
+        for k in (0, 1):
+            idx = pd.date_range(starts[k], periods=SEG_N, freq="D", tz="US/Pacific") .append(pd.date_range(pd.Timestamp(starts[k]) + pd.Timedelta(days=5), periods=2, freq="D", tz="US/Pacific"))
+            df = pd.DataFrame({"temperature": temps[k], "observed": usage[k]}, index=idx)
+            del seen[:]
+            m._fit(df)
+    return list(seen), idx
+
+
+def replay_segments(inp):
+    env = inp["env"]
+    n = SEG_N + 2
+    temps = [np.array([float(env.get(f"a{i}", 10.0 + i)) for i in range(n)]), np.array([float(env.get(f"b{i}", 60.0 + i)) for i in range(n)])]
+    usage = [np.ones(n), np.ones(n) * 2]
+    seen, idx = _segments_run(inp["layout"], temps, usage)
+    pr = _segments_problems(seen, idx, [float(x) for x in temps[1]], lambda a, b: float(a) == float(b))
+    return bool(pr), "; ".join(pr[:3])
+
+
+def _segments_problems(seen, idx, second_T, same):
+    pr = []
+    want = {t: second_T[i] for i, t in enumerate(idx)}
+    for kind in ("initial", "final"):
+        rows = [(t, v) for k, ix, vals in seen if k == kind for t, v in zip(ix, vals)]
+        comps = [ix for k, ix, vals in seen if k == kind]
+        if kind == "final" and not comps:
+            continue  # profiles without a final refit keep the first-pass result
+        got = sorted(t for t, _ in rows)
+        need = sorted(list(idx) * (2 if kind == "initial" else 1))  # first pass: the unsplit model and the weekday/weekend pair
+        if got != need:
+            pr.append(f"{kind} fitting pass of the second fit received days {[str(t.date()) for t in got][:8]}, the second baseline has {[str(t.date()) for t in idx]}")
+            continue
+        for t, v in rows:
+            if not same(v, want[t]):
+                pr.append(f"{kind} fitting pass of the second fit received temperature {v} for {t.date()}, the second baseline has {want[t]}")
+                break
+    return pr
+
+
+REPLAY["segments"] = replay_segments
+
+
+def run_segments(case):
+    from . import dailyframe as F
+    from symv.symarray import SymArray
+    n = SEG_N + 2
+    case.inputs = [Z(f"a{i}") for i in range(n)] + [Z(f"b{i}") for i in range(n)]
+
+    def run():
+        layout = F.choose("layout", ["current", "legacy"])
+        temps = [SymArray([SReal(Z(f"a{i}")) for i in range(n)]), SymArray([SReal(Z(f"b{i}")) for i in range(n)])]
+        usage = [np.ones(n), np.ones(n) * 2]
+        seen, idx = _segments_run(layout, temps, usage)
+        return layout, seen, idx
+
+    import opendsm.eemeter.models.daily.model as dm
+    with patched(dm, np=symnp):
+        paths = case.explore(run)
+    for p in paths:
+        if p.outcome != "ret":
+            case.rep["harness_errors"].append(f"second fit raised {p.value!r}")
+            continue
+        layout, seen, idx = p.value
+        rp = ("segments", (lambda l: lambda mdl: dict(layout=l, env=model_env(mdl, case.inputs)))(layout))
+        pr = _segments_problems(seen, idx, [Z(f"b{i}") for i in range(n)], lambda a, b: isinstance(a, SReal) and z3.eq(z3.simplify(lift(a)), b))
+        case.prove(p, not pr, "a second fit of one model object hands each fitting pass exactly the days (and temperatures) of the second baseline", replay=rp)
+        case.regime("second fit of one model object")
+    case.sample(dict(entry="DailyModel._fit twice on one object", paths=len(paths)))
+
+
 def run_case(case: Case, name: str):
     kind, mode, split = name.split("/")
+    if kind == "refit":
+        return run_segments(case)
     if mode == "bounds":
         return run_bounds(case, kind.endswith("smooth"))
     if mode == "uncertainty":
